@@ -321,6 +321,25 @@ func nonNegative(v ssa.Value, depth int) bool {
 		}
 		return true
 	case *ssa.BinOp:
+		if x.Op == token.ADD {
+			// the counter of a range loop: i = phi(-1, i) + 1
+			if phi, ok := unconvNum(x.X).(*ssa.Phi); ok {
+				if k, isC := constInt(x.Y); isC && k >= 0 {
+					all := true
+					for _, e := range phi.Edges {
+						if unconvNum(e) == ssa.Value(x) {
+							continue
+						}
+						if c0, isC0 := constInt(e); !isC0 || c0+k < 0 {
+							all = false
+						}
+					}
+					if all {
+						return true
+					}
+				}
+			}
+		}
 		if x.Op == token.ADD || x.Op == token.MUL {
 			return nonNegative(x.X, depth+1) && nonNegative(x.Y, depth+1)
 		}
@@ -421,6 +440,28 @@ func dischargeIndex(fn *ssa.Function, site ssa.Instruction, x, i ssa.Value) (boo
 	}
 	// array with masked / bounded index
 	if n, ok := arrayLen(x.Type()); ok {
+		// i < K (K <= array length) on the way here: the range loop over an array value, or an explicit test
+		for _, fc := range facts {
+			bo, isB := fc.cond.(*ssa.BinOp)
+			if !isB {
+				continue
+			}
+			lt := false
+			if sameVal(bo.X, i) {
+				if k, isC := constInt(bo.Y); isC {
+					lt = (bo.Op == token.LSS && fc.truth && k <= n) || (bo.Op == token.LEQ && fc.truth && k < n) ||
+						(bo.Op == token.GEQ && !fc.truth && k <= n) || (bo.Op == token.GTR && !fc.truth && k < n)
+				}
+			} else if sameVal(bo.Y, i) {
+				if k, isC := constInt(bo.X); isC {
+					lt = (bo.Op == token.GTR && fc.truth && k <= n) || (bo.Op == token.GEQ && fc.truth && k < n) ||
+						(bo.Op == token.LEQ && !fc.truth && k <= n) || (bo.Op == token.LSS && !fc.truth && k < n)
+				}
+			}
+			if lt && nonNegative(i, 0) {
+				return true, "dominated by a test of the index against a constant within the array's length; index is non-negative"
+			}
+		}
 		if bo, isB := unconvNum(i).(*ssa.BinOp); isB && bo.Op == token.AND {
 			if k, isC := constInt(bo.Y); isC && k >= 0 && k < n {
 				return true, "index masked below array length"
@@ -927,7 +968,109 @@ func dischargeSlice(fn *ssa.Function, s *ssa.Slice) (bool, string) {
 }
 
 func dischargeDivisor(fn *ssa.Function, site ssa.Instruction, d ssa.Value) (bool, string) {
+	return dischargeDivisorD(fn, site, d, 0)
+}
+
+// globalMapNonZero: g is a package-level map that is filled by the package initialiser with non-zero integer
+// constants only and is never written anywhere else in its package.
+func globalMapNonZero(g *ssa.Global) bool {
+	if g == nil || g.Pkg == nil {
+		return false
+	}
+	initFn := g.Pkg.Func("init")
+	if initFn == nil {
+		return false
+	}
+	var m ssa.Value
+	eachInstr(initFn, func(in ssa.Instruction) {
+		if st, ok := in.(*ssa.Store); ok && st.Addr == ssa.Value(g) {
+			m = st.Val
+		}
+	})
+	if m == nil {
+		return false
+	}
+	n, ok := 0, true
+	eachInstr(initFn, func(in ssa.Instruction) {
+		if mu, isMU := in.(*ssa.MapUpdate); isMU && mu.Map == m {
+			n++
+			if k, isC := constInt(mu.Value); !isC || k == 0 {
+				ok = false
+			}
+		}
+	})
+	if !ok || n == 0 {
+		return false
+	}
+	for _, mem := range g.Pkg.Members {
+		fn, isFn := mem.(*ssa.Function)
+		if !isFn || fn == initFn {
+			continue
+		}
+		for _, f2 := range append([]*ssa.Function{fn}, fn.AnonFuncs...) {
+			eachInstr(f2, func(in ssa.Instruction) {
+				switch x := in.(type) {
+				case *ssa.MapUpdate:
+					if u, isU := x.Map.(*ssa.UnOp); isU && u.X == ssa.Value(g) {
+						ok = false
+					}
+				case *ssa.Store:
+					if x.Addr == ssa.Value(g) {
+						ok = false
+					}
+				case *ssa.Call:
+					if bi, isB := x.Call.Value.(*ssa.Builtin); isB && (bi.Name() == "delete" || bi.Name() == "clear") {
+						// deleting cannot introduce a zero for a present key
+					}
+				}
+			})
+		}
+	}
+	// methods (the map may be written from a method of a type of the package)
+	return ok
+}
+
+func dischargeDivisorD(fn *ssa.Function, site ssa.Instruction, d ssa.Value, depth int) (bool, string) {
 	facts := factsAt(fn, site)
+	// a merge of alternatives that are each non-zero where they are chosen
+	if phi, ok := unconvNum(d).(*ssa.Phi); ok && depth < 4 {
+		all := len(phi.Edges) > 0
+		seenSelf := false
+		for i, e := range phi.Edges {
+			if unconvNum(e) == ssa.Value(phi) {
+				seenSelf = true
+				continue
+			}
+			if k, isC := constInt(e); isC {
+				if k == 0 {
+					all = false
+				}
+				continue
+			}
+			pred := phi.Block().Preds[i]
+			if ok, _ := dischargeDivisorD(fn, pred.Instrs[len(pred.Instrs)-1], e, depth+1); !ok {
+				all = false
+			}
+		}
+		_ = seenSelf
+		if all {
+			return true, "every alternative merged here is a non-zero constant or shown non-zero where it is assigned"
+		}
+	}
+	// v, present := table[k] with present == true here, table a constant map of non-zero values
+	if ex, ok := unconvNum(d).(*ssa.Extract); ok && ex.Index == 0 {
+		if lk, ok := ex.Tuple.(*ssa.Lookup); ok && lk.CommaOk {
+			if u, ok := lk.X.(*ssa.UnOp); ok {
+				if g, ok := u.X.(*ssa.Global); ok && globalMapNonZero(g) {
+					for _, f := range facts {
+						if e1, ok := f.cond.(*ssa.Extract); ok && e1.Tuple == ex.Tuple && e1.Index == 1 && f.truth {
+							return true, "value of a key present in " + g.Name() + ", a package-level map the initialiser fills with non-zero constants only and nothing else writes"
+						}
+					}
+				}
+			}
+		}
+	}
 	for _, f := range facts {
 		bo, ok := f.cond.(*ssa.BinOp)
 		if !ok {
@@ -973,12 +1116,18 @@ func dischargeDivisor(fn *ssa.Function, site ssa.Instruction, d ssa.Value) (bool
 				all = false
 				break
 			}
-			if k, isC := constInt(a[idx]); !isC || k == 0 {
-				all = false
+			if k, isC := constInt(a[idx]); isC && k != 0 {
+				continue
 			}
+			if depth < 3 && s.in.Parent() != nil {
+				if ok, _ := dischargeDivisorD(s.in.Parent(), s.in, a[idx], depth+1); ok {
+					continue
+				}
+			}
+			all = false
 		}
 		if all {
-			return true, fmt.Sprintf("every one of the %d callers passes a non-zero constant", len(cs))
+			return true, fmt.Sprintf("every one of the %d callers passes a non-zero value (constant, or shown non-zero at the call site)", len(cs))
 		}
 	}
 	return false, "divisor not shown to be non-zero at this site"
